@@ -231,3 +231,64 @@ Proof.
     destruct (String.eqb a sender), (String.eqb a PM), (String.eqb a (pm_fee_collector (pm_cfg (w_pm w)))),
       (String.eqb (denom_of (pm_creation_fee (pm_cfg (w_pm w)))) d); lia.
 Qed.
+
+(* ---------- routes ---------- *)
+Lemma swap_fee_msgs_leaves cfg ask sc : forallb plain_leaf (swap_fee_msgs cfg ask sc) = true.
+Proof. unfold swap_fee_msgs. rewrite forallb_app. destruct (sc_burn_fee sc =? 0), (sc_protocol_fee sc =? 0); reflexivity. Qed.
+
+Lemma route_loop_leaves ops : forall s prev ms fm s' out fms,
+  forallb plain_leaf fm = true -> route_loop s prev ops ms fm = Ok (s', out, fms) -> forallb plain_leaf fms = true.
+Proof.
+  induction ops as [|o r IH]; intros s prev ms fm s' out fms Hf H.
+  - cbn in H. inversion H; subst. exact Hf.
+  - apply route_loop_cons in H. destruct H as (s1 & sc & _ & H).
+    eapply IH; [|exact H]. rewrite forallb_app, Hf. apply swap_fee_msgs_leaves.
+Qed.
+
+(* C12 / C04 for routes, the whole transaction: the sender pays the offer; the receiver is sent exactly the amount
+   SimulateSwapOperations quotes (each pool visited at most once) in the route's final denom; besides that only the
+   hops' protocol-fee transfers and burns [fee_msgs] take effect; nobody else's balance changes *)
+Theorem route_tx_balances w sender funds ops mr r ms w' :
+  NoDup (map so_pool ops) ->
+  run_tx w sender PM (WPm (PmRoute ops mr r ms)) funds = Ok w' ->
+  exists fst_op lst amount out fee_msgs,
+    hd_error ops = Some fst_op /\ last (map Some ops) None = Some lst /\ must_pay funds (so_in fst_op) = Ok amount /\
+    simulate_swap_operations (w_pm w) amount ops = Ok out /\ (forall m, mr = Some m -> m <= out) /\
+    forallb plain_leaf fee_msgs = true /\
+    forall a d,
+      bal (w_bank w') a d = bal (w_bank w) a d
+        - ind (String.eqb a sender) (camt funds d) + ind (String.eqb a PM) (camt funds d)
+        - ind (String.eqb a PM) (ind (String.eqb (so_out lst) d) out)
+        + ind (String.eqb a (addr_or_default w r sender)) (ind (String.eqb (so_out lst) d) out)
+        + leaves_eff PM (w_tf_fee w) fee_msgs a d.
+Proof.
+  intros Hnd H. destruct (leaf_tx_balances _ _ _ _ _ _ H) as (wa & w2 & msgs & Hsa & Hsup & Eh & Hbal).
+  apply handle_ok_typed in Eh. destruct Eh as (Eh & _ & _).
+  unfold handle_typed in Eh. cbn [String.eqb EM FC PM FM Ascii.eqb Bool.eqb] in Eh.
+  apply bind_ok in Eh. destruct Eh as [[s1 msgs1] [Hx Eh]]. inversion Eh; subst w2 msgs; clear Eh. cbn [pm_execute] in Hx.
+  pose proof (exec_ops_spec _ _ _ _ _ _ _ _ _ Hx) as (lst & fo & amount & outc & fee_msgs & Hl & Hh & Hpay & Hao & Hloop & Hmr & Hm).
+  pose proof (simulate_swap_operations_eq_execute _ _ _ _ _ _ _ _ _ Hnd Hx) as (fo' & amount' & outc' & fee' & lst' & Hh' & Hpay' & Hl' & Hsim & Hm').
+  assert (fo' = fo) by congruence. subst fo'. assert (amount' = amount) by congruence. subst amount'.
+  assert (Ha : amount_of outc' = amount_of outc).
+  { pose proof (simulate_eq_route ops (w_pm wa) (so_in fo, amount) ms [] s1 outc fee_msgs Hnd Hao Hloop) as Hs2. cbn [amount_of snd] in Hs2.
+    unfold simulate_swap_operations in Hsim.
+    destruct (ensure (negb (Nat.eqb (List.length ops) 0)) "NoSwapOperationsProvided") as [[]|e]; cbn [bind] in Hsim; [|discriminate].
+    congruence. }
+  destruct Hsa as (_ & Htfa & Hval & _ & _ & Hpma & _).
+  exists fo, lst, amount, (amount_of outc), fee_msgs.
+  split; [exact Hh|]. split; [exact Hl|]. split; [exact Hpay|].
+  split; [rewrite <- Hpma, <- Ha; exact Hsim|]. split; [exact Hmr|].
+  assert (Hfl : forallb plain_leaf fee_msgs = true) by (eapply route_loop_leaves; [|exact Hloop]; reflexivity).
+  split; [exact Hfl|].
+  intros a d.
+  assert (Hr : addr_or_default wa r sender = addr_or_default w r sender) by (unfold addr_or_default, addr_valid; rewrite Hval; reflexivity).
+  rewrite Hr in Hm. subst msgs1.
+  assert (Hall : forallb plain_leaf ((if amount_of outc =? 0 then [] else [plain (MBankSend (addr_or_default w r sender) [(so_out lst, amount_of outc)])]) ++ fee_msgs) = true)
+    by (rewrite forallb_app, Hfl; destruct (amount_of outc =? 0); reflexivity).
+  rewrite (Hbal Hall a d).
+  assert (Happ : forall l1 l2, leaves_eff PM (w_tf_fee w) (l1 ++ l2) a d = leaves_eff PM (w_tf_fee w) l1 a d + leaves_eff PM (w_tf_fee w) l2 a d)
+    by (induction l1 as [|x l1 IH]; intros l2; cbn [app leaves_eff]; [lia | rewrite IH; lia]).
+  rewrite Happ.
+  destruct (amount_of outc =? 0) eqn:E0; cbn [leaves_eff leaf_eff plain sm_msg camt denom_of amount_of fst snd]; unfold ind;
+    destruct (String.eqb a sender), (String.eqb a PM), (String.eqb a (addr_or_default w r sender)), (String.eqb (so_out lst) d); lia.
+Qed.
